@@ -8,13 +8,13 @@ SRCS = ["rect.c"]
 LEVEL = "proof"
 RULE = ("case = (op, a, b) with op in intersect/intersects/contains/add/subtract; exhaustive part: every ordered pair of "
         "rectangles with edges in {0..3} on both axes (36x36 pairs, realising all 13x13 Allen ordering classes of two "
-        "non-empty intervals per axis) at three translations, times five operations; random part: wide coordinates. "
+        "non-empty intervals per axis) at three translations, times seven operations (intersect also with the destination aliasing either argument); random part: wide coordinates. "
         "A case is non-trivial when the two rectangles touch or overlap on both axes; distinct = distinct "
         "(op, vertical Allen class, horizontal Allen class).")
 ASSUMPTIONS = ["no int overflow (|coordinate| < 2^30)", "both rectangles non-empty (lines > 0, cols > 0), as the property states"]
 TRUSTED = ["model coq/RectDefs.v hand-written after src/rect.c; spec oracle coq/RectSpec.v (coordinate-compressed cell test)"]
 
-OPS = "ISCAD"
+OPS = "ISCADJK"   # J, K = intersect with the destination aliasing the first / second argument
 
 
 def allen(lo1, hi1, lo2, hi2):
@@ -37,7 +37,7 @@ def gen(tier, seed, info):
                     n += 1
                     yield "%s %d %d %d %d %d %d %d %d" % (op, a[0] + dy, a[1] + dx, a[2], a[3], b[0] + dy, b[1] + dx, b[2], b[3])
     info["exhaustive"] = True
-    info["exhaustive_scope"] = "all ordered pairs of the %d rectangles with edges in {0..3}, 3 translations, 5 ops" % len(rects)
+    info["exhaustive_scope"] = "all ordered pairs of the %d rectangles with edges in {0..3}, 3 translations, 7 ops" % len(rects)
     info["exhaustive_cases"] = n
     info["allen_class_pairs_hit"] = len(classes)
     assert len(classes) == 169, len(classes)
